@@ -228,9 +228,10 @@ func refAdmit(c AdmCase, a Attempt, vals []ValSpec, rule string, admitted map[in
 		isVal = isVal || vs.Key == a.Announce
 	}
 	applies := c.AuthByCA && (isVal || c.NVNA)
-	if rule == "code" {
-		applies = c.AuthByCA && !(isVal && !c.NVNA)
-	}
+	// rule "code" used to model the inverted bypass condition of authByCA (finding
+	// ca-check-skipped-for-validator-key, fixed by /repo 7f85b3e); since the fix the code's rule is the
+	// documented one, so attribution no longer distinguishes them.
+	_ = rule
 	if applies {
 		ok := false
 		s := sigString(a)
@@ -368,11 +369,11 @@ func runAdm(c AdmCase, x *h.Ctx) {
 					return
 				}
 			case e1:
+				// the decision matches the documented rule applied to the current set under the (now
+				// identical) code rule: cannot happen when got != want; kept for the regression replay
 				causes = []string{sigValidatorBypass}
-			case e2:
+			case e2, e3:
 				causes = []string{sigStaleValset}
-			case e3:
-				causes = []string{sigStaleValset, sigValidatorBypass}
 			case got:
 				if x.Fail("admitted-without-valid-ca-signature", "%s", desc) {
 					return
